@@ -346,3 +346,30 @@ def c12(run):
     family_enumerated(run, "envelope", "Gen_Envelope", "Trace_Envelope", gen_cfg=tier_n(run, "Gen_Envelope.cfg", "Gen_Envelope_thorough.cfg"))
     run.exhaustive = True
     family_random(run, "envelope", "Trace_Envelope", tier_n(run, 5000, 200000))
+
+FAMILY_MODULE["struct"] = "Trace_StructOps"
+
+
+def _canary_struct(e):
+    for st in e["steps"]:
+        if st["cts"]:
+            st["cts"] = st["cts"] + ["XYZM" if st["got"]["ct"] != "XYZM" else "XY"]
+            return e
+    return None
+
+
+CANARY["struct"] = _canary_struct
+
+
+@prop("C16")
+def c16(run):
+    run.assumptions += ["vertex payloads are opaque tokens; SnapToGrid(0) and Densify(1e12) are used as structure-preserving no-ops "
+                        "on integer ordinates; XY-only operations are observed only when they return without error"]
+    run.extra_cov = {"rule": "every transition (start geometry of every type x coordinate type incl. empties, action, argument) of the "
+                             "bounded state graph as a one-step history; random histories of 1..12 operations (Force*, Reverse, "
+                             "TransformXY, AsMulti*, constructors with members of other coordinate types, SnapToGrid, Densify, WKB/WKT "
+                             "round trip, ForceCW/CCW), each step read back through every accessor, Dump, DumpCoordinates and the "
+                             "XY-only operations"}
+    run.model_check("MC_StructOps", cfg=tier_n(run, "MC_StructOps.cfg", "MC_StructOps_thorough.cfg"), timeout=3000)
+    family_enumerated(run, "struct", "Gen_StructOps", "Trace_StructOps", gen_cfg=tier_n(run, "Gen_StructOps.cfg", "Gen_StructOps_thorough.cfg"))
+    family_random(run, "struct", "Trace_StructOps", tier_n(run, 1500, 60000))
